@@ -4,4 +4,4 @@
 From Coq Require Import ExtrOcamlBasic.
 From PQL Require Import Model.Show Spec.Expected.
 Extraction Language OCaml.
-Extraction "model.ml" scan split_statements show_tokens show_pieces show_parse show_spans show_compile show_walk show_lit show_cli reread.
+Extraction "model.ml" scan split_statements show_tokens show_pieces show_parse show_spans show_compile show_walk show_lit show_cli show_cli_gen reread.
